@@ -19,6 +19,15 @@ compares every observation with this model.  Outside the quantifier: I/O errors 
 leaves `dirty = false`, so its changes are not retried at close — by reading, not claimed),
 power loss (no directory fsync), other processes writing the same directory.
 
+Statement → theorems.  "the file at the path is still a complete, loadable dictionary holding either
+the previous or the new contents, if the process dies at any point": `atomic`, `atomic_step`,
+`atomic_old_or_new`, `crash_enabled`, `atomic_after_crash`.  "after a change has been accepted and the
+dictionary is flushed and closed normally, reopening the file shows that change, whatever the timing
+of the writer": `change_shows` (an accepted change is live) + `live_stable` (nothing else alters what
+is live) + `adopt_safe` + `durable_full` (after close the file holds what is live); in one statement,
+for the tree with both repairs: `durable_spec`.  The editor's call pattern: `editor_durable`,
+`editor_atomic`, `editor_never_adopts`.
+
 Finding F12 (DESIGN §9): on the code as found (`Cfg.joinFirst = false`) `DurableFull` is false —
 `durable_refuted`; repaired in the repository (`fix:` commit, `Drop` joins the writer first) and
 proved for the repaired code — `durable_full`.
@@ -169,6 +178,50 @@ theorem live_stable {cfg : Cfg} {w w' : World} {a : Act} (hr : Reachable cfg w) 
     (ha : a = .flush ∨ a = .reopen ∨ a = .close ∨ a = .d ∨ a = .w ∨ a = .crash) : w'.buf.live = w.buf.live := by
   have := (step_facts (inv_reachable hr) hs).2.2
   rcases ha with h | h | h | h | h | h <;> subst h <;> exact this
+
+/-- an accepted change shows in the live contents — for both variants of the tombstone rule, as
+    long as the key is not tombstoned in the unrepaired one (that exception is finding F09 of
+    property C09: `add`/`update` after `remove` of the same phrase stays hidden) -/
+theorem change_shows {cfg : Cfg} {w w' : World} {k : Key} {v : Val}
+    (hg : cfg.revive = true ∨ w.buf.grave k = false) :
+    (step cfg w (.update k v) = some w' → w'.buf.live = setC w.buf.live k (some v)) ∧
+    (step cfg w (.add k v) = some w' → w.buf.live k = none → w'.buf.live = setC w.buf.live k (some v)) ∧
+    (step cfg w (.remove k) = some w' → w'.buf.live = setC w.buf.live k none) := by
+  have hput : (w.buf.put cfg k v).live = setC w.buf.live k (some v) := by
+    rcases hg with hg | hg
+    · exact live_put_revive cfg hg w.buf k v
+    · cases hr : cfg.revive with
+      | true => exact live_put_revive cfg hr w.buf k v
+      | false => rw [live_put_norevive cfg hr w.buf k v, hg]; rfl
+  refine ⟨?_, ?_, ?_⟩
+  · intro hs
+    simp only [step] at hs
+    split at hs
+    · cases hs
+    · split at hs
+      · have hs := Option.some.inj hs
+        subst hs
+        exact hput
+      · cases hs
+  · intro hs hnone
+    simp only [step] at hs
+    split at hs
+    · cases hs
+    · split at hs
+      · have hs := Option.some.inj hs
+        subst hs
+        simp only [Buf.add, hnone, Option.isSome_none, Bool.false_eq_true, ite_false]
+        exact hput
+      · cases hs
+  · intro hs
+    simp only [step] at hs
+    split at hs
+    · cases hs
+    · split at hs
+      · have hs := Option.some.inj hs
+        subst hs
+        exact live_remove w.buf k
+      · cases hs
 
 /-- with both repairs in place the live contents are, at every moment and across sessions, the
     accepted changes applied as map updates to the initial file contents -/
